@@ -7,7 +7,8 @@
 //
 //   - pos   : where the victim p1 is in its lifecycle when it is blacklisted:
 //     never (not connected yet) | pending (queue created, NewStream held back by the host
-//     wrapper) | conn (connected floodsub peer, never in a mesh) | mesh | fanout |
+//     wrapper; with mem = mesh the victim has already GRAFTed us over its own stream and sits in the
+//     mesh although the router has never seen an outbound stream to it) | conn (connected floodsub peer, never in a mesh) | mesh | fanout |
 //     down (disconnected) | repending (reconnecting, NewStream held back) |
 //     gated (its writer blocked in Write with one popped RPC and a backlog of >= 3 RPCs queued;
 //     bk = mesh | mesh-urgent (v1.2 peer, urgent IDONTWANTs + messages) | topic (flood publishing) |
@@ -71,6 +72,7 @@ type scenario struct {
 	Stage  string `json:"stage"`
 	Impl   string `json:"impl"`
 	Bk     string `json:"bk"`   // gated only: what the backlog in the victim's queue is made of (mesh | mesh-urgent | topic | flood | directpeer | fanout)
+	Mem    string `json:"mem"`  // pending / repending only: "mesh" = the victim GRAFTed us over ITS stream while our stream to it is still being opened (in the mesh by D6's path)
 	Path   string `json:"path"` // queue (signed messages, validation queue) | direct (unsigned: pushMsg publishes at once)
 	Expire bool   `json:"expire"`
 }
@@ -300,6 +302,9 @@ func (r *run) setupVictim() {
 		r.newIdleFake(victim, "v11")
 		w.H.HoldOpen(id())
 		r.do(M{"a": "peer", "p": victim, "dir": "in", "subs": subs})
+		if r.sc.Mem == "mesh" {
+			r.do(M{"a": "graft", "p": victim, "t": "T1"})
+		}
 	case "conn":
 		r.do(M{"a": "peer", "p": victim, "proto": "flood", "dir": "in", "subs": subs})
 	case "mesh":
@@ -323,6 +328,9 @@ func (r *run) setupVictim() {
 		r.do(M{"a": "down", "p": victim})
 		w.H.HoldOpen(id())
 		r.do(M{"a": "peer", "p": victim, "dir": "in", "subs": subs})
+		if r.sc.Mem == "mesh" {
+			r.do(M{"a": "graft", "p": victim, "t": "T1"})
+		}
 	case "gated":
 		// a backlog in the victim's outbound queue: its writes are gated (the writer sits inside
 		// Write with ONE popped RPC), then >= 3 more RPCs are queued for it
@@ -590,7 +598,7 @@ func runScenario(t *testing.T, out *vh.Out, idx int, sc scenario) {
 		}
 		r := &run{t: t, sc: sc, px: px, ts: &traps{}}
 		cfg := world.Config{Hosts: 6, Opts: opts, FloodPublish: sc.Bk == "topic"}
-		w := world.New(t, out, idx, cfg, M{"pos": sc.Pos, "how": sc.How, "by": sc.By, "stage": sc.Stage, "impl": sc.Impl, "path": sc.Path, "bk": sc.Bk,
+		w := world.New(t, out, idx, cfg, M{"pos": sc.Pos, "how": sc.How, "by": sc.By, "stage": sc.Stage, "impl": sc.Impl, "path": sc.Path, "bk": sc.Bk, "mem": sc.Mem,
 			"expire": sc.Expire, "victim": victim, "expMs": px.exp})
 		r.w = w
 		px.writes = w.H.Writes
